@@ -89,6 +89,37 @@ CONSTANTS = {
          r"pub fn next_row_group\(&mut self\) -> Result<SerializedRowGroupWriter<'_, W>> \{\s*self\.assert_previous_writer_closed\(\)\?;.*?(\d+)", "int"),
         ("SHAPE_WRITE_METADATA_FINISHED", "parquet/src/file/writer.rs",
          r"fn write_metadata\(&mut self\) -> Result<ParquetMetaData> \{\s*self\.finished = true;.*?(\d+)", "int"),
+        # ---- guards of the modelled readers (shape items: `_lost = false` is what the theorem uses)
+        ("SHAPE_READ_META_LEN_EOF", _IR,
+         r"pub fn read_meta_len\(&mut self\).{0,200}?match self\.reader\.read_exact\(&mut meta_len\) \{\s*Ok\(\(\)\) => \{\}\s*Err\(e\) => \{\s*return if e\.kind\(\) == std::io::ErrorKind::UnexpectedEof \{"
+         r"(?:\s*//[^\n]*)*\s*Ok\(None\)\s*\} else \{\s*Err\(ArrowError::from\(e\)\)\s*\};.*?(\d+)", "int"),
+        ("SHAPE_READ_META_LEN_MARKER", _IR,
+         r"if meta_len == CONTINUATION_MARKER \{\s*self\.reader\.read_exact\(&mut meta_len\)\?;\s*\}\s*i(32)::from_le_bytes\(meta_len\)\s*\};\s*if meta_len == 0 \{\s*return Ok\(None\);\s*\}"
+         r"\s*let meta_len = usize::try_from\(meta_len\)\s*\.map_err\(", "int"),
+        ("SHAPE_MAYBE_NEXT_CHECKS", _IR,
+         r"\.take\(meta_len as u(64)\)\s*\.read_to_end\(&mut self\.buf\)\?;\s*if read != meta_len \{\s*return Err\(ArrowError::ParseError\(.{0,400}?let body_len = usize::try_from\(message\.bodyLength\(\)\)\.map_err\("
+         r".{0,300}?let buf = read_body_bounded\(&mut self\.reader, body_len\)\?;", "int"),
+        ("SHAPE_READ_BODY_EXACT", _IR,
+         r"while filled < len \{\s*let target = buf\.len\(\);\s*reader\.read_exact\(&mut buf\.as_slice_mut\(\)\[filled\.\.target\]\)\?;.*?(\d+)", "int"),
+        ("SHAPE_READ_FOOTER_LENGTH", _IR,
+         r"pub fn read_footer_length\(buf: \[u8; (10)\]\) -> Result<usize, ArrowError> \{\s*if buf\[4\.\.\] != super::ARROW_MAGIC \{\s*return Err\(.{0,200}?let footer_len = i32::from_le_bytes\(buf\[\.\.4\]\.try_into\(\)\.unwrap\(\)\);"
+         r"\s*footer_len\s*\.try_into\(\)\s*\.map_err\(", "int"),
+        ("SHAPE_FILE_READER_SEEKS", _IR,
+         r"let footer_len = read_footer_length\(buffer\)\?;.{0,120}?reader\.seek\(SeekFrom::End\(-(10) - footer_len as i64\)\)\?;\s*reader\.read_exact\(&mut footer_data\)\?;", "int"),
+        ("SHAPE_FOOTER_TAIL_MAGIC", _PT,
+         r"let encrypted_footer = if magic == PARQUET_MAGIC_ENCR_FOOTER \{\s*true\s*\} else if magic == PARQUET_MAGIC \{\s*false\s*\} else \{\s*return Err\(.*?(\d+)", "int"),
+        ("SHAPE_STREAM_DECODER_FINISH", "arrow-ipc/src/reader/stream.rs",
+         r"pub fn finish\(&mut self\) -> Result<\(\), ArrowError> \{\s*match self\.state \{\s*DecoderState::Finished\s*\| DecoderState::Header \{\s*read: (0),\s*continuation: false,\s*\.\.\s*\} => Ok\(\(\)\),"
+         r"\s*_ => Err\(", "int"),
+        ("SHAPE_STREAM_DECODER_LOOP", "arrow-ipc/src/reader/stream.rs",
+         r"pub fn decode\(&mut self, buffer: &mut Buffer\).{0,80}?while !buffer\.is_empty\(\) \{.{0,1200}?if !\*continuation && buf == &CONTINUATION_MARKER \{.{0,200}?let size = u(32)::from_le_bytes\(\*buf\);"
+         r"\s*if size == 0 \{\s*self\.state = DecoderState::Finished;.{0,12000}?DecoderState::Finished => \{\s*return Err\(", "int"),
+        ("SHAPE_JSON_FLUSH", "arrow-json/src/reader/mod.rs",
+         r"pub fn flush\(&mut self\) -> Result<Option<RecordBatch>, ArrowError> \{\s*let tape = self\.tape_decoder\.finish\(\)\?;\s*if tape\.num_rows\(\) == (0) \{\s*return Ok\(None\);", "int"),
+        ("SHAPE_JSON_TAPE_FINISH", "arrow-json/src/reader/tape.rs",
+         r"pub fn finish\(&self\) -> Result<Tape<'_>, ArrowError> \{\s*match self\.stack\.last\(\) \{\s*None => \{\}\s*Some\(DecoderState::TopLevelList\) => \{\}\s*Some\(state\) => \{\s*return Err\(ArrowError::JsonError\(format!\(\s*\"Truncated record whilst reading.*?(\d+)", "int"),
+        ("SHAPE_AVRO_READ_EOF", "arrow-avro/src/reader/mod.rs",
+         r"let buf = self\.reader\.fill_buf\(\)\?;\s*if buf\.is_empty\(\) \{\s*self\.finished = true;\s*break 'outer;\s*\}.{0,200}?let consumed = self\.block_decoder\.decode\(buf\)\?;.*?(\d+)", "int"),
         # ---- IPC
         ("CONTINUATION_BYTE", _IL,
          r"const\s+CONTINUATION_MARKER\s*:\s*\[u8;\s*4\]\s*=\s*\[\s*(0x[0-9a-fA-F]+|\d+)\s*;\s*4\s*\]\s*;", "int"),
